@@ -151,6 +151,23 @@ func (c *Conn) Read(b []byte) (int, error) {
 	}
 }
 
+// Take (free-running mode) blocks until the server has put bytes on the connection and returns all of them; ok is
+// false once the connection is over.
+func (c *Conn) Take() (b []byte, ok bool) {
+	n := c.net
+	n.mu.Lock()
+	defer n.mu.Unlock()
+	for len(c.in) == 0 {
+		if c.ctx.Err() != nil || c.closedLocal || c.closedPeer {
+			return nil, false
+		}
+		n.cond.Wait()
+	}
+	b, c.in = c.in, nil
+	c.Consumed += len(b)
+	return b, true
+}
+
 // writeChoice: a thread parked at the start of a frame write; the environment lets it through or fails it.
 type writeChoice struct {
 	c    *Conn
